@@ -56,10 +56,18 @@ def main():
                 print("%s -> %s: exit %d, %d VIOLATION lines %s (%.0fs)" % (mid, c, p.returncode, res[c]["violation_lines"], sigs[:3], time.time() - t0))
                 sys.stdout.flush()
             results[mid] = {"applied": True, "checks": res, "caught": any(v["exit"] == 1 for v in res.values())}
+            _save(tier, {mid: results[mid]})
         finally:
             sh(["git", "-C", "/repo", "checkout", "--", "."])
     # evidence files were rewritten by runs on mutated code: restore a clean state by rerunning nothing here;
     # the caller reruns the affected checks on the unchanged tree.
+    _save(tier, results)
+    print("caught: %s" % {k: v.get("caught") for k, v in results.items()})
+    return 0
+
+
+def _save(tier, results):
+    """Merges results into RESULTS-<tier>.json (after every change, so that a long run can be stopped at any time)."""
     out = os.path.join(SEEDED, "RESULTS-%s.json" % tier)
     prev = {}
     if os.path.exists(out):
@@ -68,8 +76,6 @@ def main():
     prev.update(results)
     with open(out, "w") as f:
         json.dump(prev, f, indent=1, sort_keys=True)
-    print("caught: %s" % {k: v.get("caught") for k, v in results.items()})
-    return 0
 
 
 if __name__ == "__main__":
